@@ -312,6 +312,7 @@ def run_coll_history(h):
                 elif k == 'contains': r = cobj[op[1]] in s.courses
                 elif k == 'add': r = s.courses.add(cobj[op[1]])
                 elif k == 'remove': r = s.courses.remove(cobj[op[1]])
+                elif k == 'assign': s.courses = [cobj[i] for i in op[1]]; r = None       # Set.__set__: only the invariant is checked afterwards
                 elif k == 'add_rev': r = cobj[op[1]].students.add(s)
                 elif k == 'remove_rev': r = cobj[op[1]].students.remove(s)
                 elif k == 'flush': r = orm.flush()
